@@ -89,7 +89,7 @@ Lemma run_terms_safe kek dek r1 : protected kek -> protected dek ->
   (forall t, In t files -> safe t) /\ (names_public = true -> forall t, In t audits -> safe t)
   /\ uses = count_reopens h.
 Proof.
-  intros Pk Pd. induction h as [|[ev cl o r|] h IH]; intros s f files audits uses Hf H.
+  intros Pk Pd. induction h as [|[ev cl o r| |] h IH]; intros s f files audits uses Hf H.
   - cbn in H. injection H as <- <- <-. repeat split; intros; contradiction.
   - cbn [run_terms] in H.
     destruct (db_step N.eqb ev s cl o) as [[s' res] fx].
@@ -115,6 +115,12 @@ Proof.
     injection H as <- <- <-.
     destruct (IH _ _ _ _ _ (ex_intro _ r0 (ex_intro _ doc eq_refl)) Er) as (Hfi & Ha & Hu).
     repeat split; auto. rewrite count_reopens_reopen. subst. reflexivity.
+  - cbn [run_terms] in H.
+    destruct (run_terms kek (fst (c_create kek dek r1)) s f h) as [[files' audits'] uses'] eqn:Er.
+    injection H as <- <- <-.
+    destruct (IH _ _ _ _ _ Hf Er) as (Hfi & Ha & Hu).
+    repeat split; auto.
+    intros t [<-|I]; [|auto]. destruct Hf as (r0 & doc & ->). apply saved_file_safe; assumption.
 Qed.
 
 End Secrecy.
